@@ -117,6 +117,8 @@ FreeOfCircuit(c, also) ==
     LET ids == Obstacles(c) \cup { i \in also : PW(c.cells[i]) > 0 /\ PH(c.cells[i]) > 0 }
         rects == [i \in ids |-> CellRect(c.cells[i])] IN
     UNION { { <<s[1], s[2], c.rows[r].y0, c.rows[r].y1, c.rows[r].o>> : s \in FreeSegments(c.rows[r], rects) } : r \in 1..Len(c.rows) }
+\* number of free segments, counted row by row
+FreeCount(c) == SumSeq([r \in 1..Len(c.rows) |-> Cardinality(FreeSegments(c.rows[r], ObstacleRects(c)))])
 RowSet(rows) == { <<rows[k].x0, rows[k].x1, rows[k].y0, rows[k].y1, rows[k].o>> : k \in 1..Len(rows) }
 TrivialFit(c) ==
     LET M == Movable(c) H == RowH(c) IN
